@@ -726,3 +726,71 @@ def symmetric_double(tp: Tape, cls="SMG", nhalf=4, mirror=None):
             if _s.same_or_unspecified(d, d2):
                 m.bond_stereo[k] = d
     return m, mirror
+
+
+# ---------------------------------------------------------------------------
+# regular graphs whose bond roles differ but whose colourings agree
+
+
+def _regular_bases():
+    prism = [(0, 1), (1, 2), (2, 0), (3, 4), (4, 5), (5, 3), (0, 3), (1, 4),
+             (2, 5)]
+    k33 = [(i, j) for i in range(3) for j in range(3, 6)]
+    cube = [(i, i ^ b) for i in range(8) for b in (1, 2, 4) if i < i ^ b]
+    c6 = [(i, (i + 1) % 6) for i in range(6)]
+    c8 = [(i, (i + 1) % 8) for i in range(8)]
+    moebius8 = c8 + [(i, i + 4) for i in range(4)]
+    k4 = [(i, j) for i in range(4) for j in range(i + 1, 4)]
+    c4 = [(0, 1), (1, 2), (2, 3), (3, 0)]
+    pet = ([(i, (i + 1) % 5) for i in range(5)]
+           + [(i, i + 5) for i in range(5)]
+           + [(5 + i, 5 + (i + 2) % 5) for i in range(5)])
+    return {"prism": (6, prism), "k33": (6, k33), "cube": (8, cube),
+            "c6": (6, c6), "c8": (8, c8), "moebius8": (8, moebius8),
+            "k4": (4, k4), "c4": (4, c4), "petersen": (10, pet)}
+
+
+def _perfect_matchings(n, edges, limit=400):
+    edges = [tuple(sorted(e)) for e in edges]
+    out = []
+
+    def rec(free, chosen):
+        if len(out) >= limit:
+            return
+        if not free:
+            out.append(list(chosen))
+            return
+        a = min(free)
+        for e in edges:
+            if e[0] == a and e[1] in free:
+                rec(free - {e[0], e[1]}, chosen + [e])
+
+    rec(frozenset(range(n)), [])
+    return out
+
+
+def regular_role_pair(tp: Tape, cls="CRG"):
+    """Two reaction graphs over the same regular skeleton (one element)
+    whose role-carrying bonds are two perfect matchings: every atom has the
+    same environment in reactant, product and TS, so only the search can
+    tell whether the two role patterns are isomorphic."""
+    bases = _regular_bases()
+    name = tp.pick(sorted(bases))
+    n, edges = bases[name]
+    pms = _perfect_matchings(n, edges)
+    m1, m2 = tp.pick(pms), tp.pick(pms)
+    role = tp.pick(ROLES)
+    role2 = role if tp.chance(200) else tp.pick(ROLES)
+    z = tp.pick([6, 14, 7])
+
+    def build(matching, r):
+        m = Model(cls)
+        for i in range(n):
+            m.add_atom(i, z)
+        ms = {tuple(sorted(e)) for e in matching}
+        for e in edges:
+            e = tuple(sorted(e))
+            m.add_bond(e[0], e[1], r if e in ms else None)
+        return m
+
+    return build(m1, role), build(m2, role2), name
